@@ -4,7 +4,7 @@ spec fn nfa_edges<V>(n: NfaBuilder<u8, V>, s: int) -> Map<u8, u32> { n.states@[s
 // structure: state 0 = root, 1 = dead; ids >= 2 form a tree below the root, children have larger ids than parents
 spec fn nfa_tree<V>(n: NfaBuilder<u8, V>) -> bool {
     let len = n.states@.len();
-    &&& 2 <= len <= u32::MAX
+    &&& 2 <= len <= u32::MAX as nat + 1
     &&& forall|c: u8| !nfa_edges(n, 1).contains_key(c)
     &&& forall|s: int, c: u8| 0 <= s < len && #[trigger] nfa_edges(n, s).contains_key(c) ==>
             2 <= nfa_edges(n, s)[c] < len && s < nfa_edges(n, s)[c]
@@ -99,3 +99,12 @@ proof fn lemma_benc_nospur<V>(st: Seq<State>, n: NfaBuilder<u8, V>, idmap: Seq<u
     requires bw_encodes(st, n, idmap), 0 <= s < n.states@.len(), s != 1, bw_edge(st, idmap[s] as int, c),
     ensures nfa_edges(n, s).contains_key(c),
 { reveal(bw_encodes); }
+
+// slots that hold no automaton state keep OUTPUT_POS == 0
+spec fn slot_used<V>(n: NfaBuilder<u8, V>, idmap: Seq<u32>, x: int) -> bool {
+    exists|s: int| 0 <= s < n.states@.len() && s != 1 && #[trigger] idmap[s] == x
+}
+spec fn bw_built<V>(st: Seq<State>, n: NfaBuilder<u8, V>, idmap: Seq<u32>) -> bool {
+    &&& bw_encodes(st, n, idmap)
+    &&& forall|x: int| 0 <= x < st.len() ==> st_opos(#[trigger] st[x]) == 0 || slot_used(n, idmap, x)
+}
